@@ -84,6 +84,10 @@ def _cond(rng, w):
     return rand_bool(rng, w, rng.choice([0, 1]))
 
 
+def G_const(rng, w):
+    return const(rng, w)
+
+
 def T(name):
     def deco(f):
         TEMPLATES.append((name, f))
@@ -196,7 +200,11 @@ def _(rng, w):
     low = (1 << min(k, tot)) - 1
     rot = ((low << l) | (low >> (tot - l))) & ((1 << tot) - 1)
     mask = rng.choice([rot, rot, rot, ((0xFFFFFFFF if tot == 64 else 0xFFFF) << l) % (1 << big), (1 << tot) - 1, 0xFFFF00, 0x7FFFFFFF8, rng.getrandbits(big)])
-    return ("and", ("or", ("shl", a, ("bvv", l, big)), ("lshr", a, ("bvv", r, big))), ("bvv", mask % (1 << big), big))
+    shr = "lshr" if rng.random() < 0.7 else "ashr"          # the arithmetic shift is NOT a rotation: must stay unrewritten or be right
+    parts = [("shl", a, ("bvv", l, big)), (shr, a, ("bvv", r, big))]
+    if rng.random() < 0.3:
+        parts.reverse()
+    return ("and", ("or",) + tuple(parts), ("bvv", mask % (1 << big), big))
 @T("D6.and_concat_mask")
 def _(rng, w):
     if w < 2:
@@ -350,6 +358,22 @@ def _(rng, w):
     lo = 8 * rng.randrange(0, big // 8) if rng.random() < 0.7 else rng.randrange(0, big)
     hi = min(big - 1, lo + rng.choice([7, 15, 3, 8]))
     return ("extract:%d:%d" % (hi, lo), src)
+@T("V2.reverse_extract_reverse")
+def _(rng, w):
+    """a byte-swapped value sliced at any bit offset (byte aligned or not), the slice a whole number of bytes or not, swapped again"""
+    big = rng.choice([16, 24, 32, 40, 64])
+    x = rng.choice([var(rng, big, "x"), _x(rng, big)])
+    nbytes = rng.randrange(1, big // 8 + 1)
+    length = 8 * nbytes if rng.random() < 0.8 else rng.randrange(1, big + 1)
+    lo = rng.randrange(0, big - length + 1)
+    if rng.random() < 0.4:
+        lo = 8 * (lo // 8)
+    hi = lo + length - 1
+    inner = ("extract:%d:%d" % (hi, lo), ("reverse", x))
+    t = ("reverse", inner) if length % 8 == 0 else inner
+    if rng.random() < 0.3:
+        t = ("add", t, G_const(rng, length))
+    return t
 @T("K.concat")
 def _(rng, w):
     parts = []
